@@ -16,7 +16,7 @@ RULE = ("one set of reference parameters (unit quaternion / angle, translation) 
         "holding 1..5 values. Oracle: NumPy R p + t; (XY)p = X(Yp); X^-1(Xp) = p; column j of a d x N result = single call on "
         "column j; M-valued pose x one point = one column per value. Non-trivial: N >= 2, or N = d, or multi-valued pose, or "
         "|p| / |t| ratio > 1e3, or a non-list container.")
-RULE = RULE + probes.RULE_TEXT + (probes.AUG_TEXT if PROPERTY_ID in probes.AUG_PROPS else "") + probes.VARIANT_TEXT
+RULE = RULE + probes.RULE_TEXT + (probes.AUG_TEXT if PROPERTY_ID in probes.AUG_PROPS else "") + probes.VARIANT_TEXT + probes.OWN_TEXT
 ASSUMPTIONS = ["tolerance 1e-9*max(1,|t|,|p|)", "single-vector results are compared after ravel(): the statement fixes values, not (d,1) vs (d,)",
                "column-by-column equality of a d x N call with N single calls is judged to 1e-12 relative (BLAS may sum in a different order)",
                "multi-valued pose x (d,N) matrix is outside the statement and not called"]
@@ -38,13 +38,14 @@ def s_case(dim):
         "pts": st.one_of(st.lists(pt, min_size=1, max_size=1), st.lists(pt, min_size=1, max_size=7), st.lists(pt, min_size=dim, max_size=dim)),
         "form": st.sampled_from(FORMS),
         "int_points": st.booleans(),
+        "micro": st.one_of(st.none(), st.none(), st.none(), st.fixed_dictionaries({"s": gens.logmag(-8, -3), "delta": gens.logmag(-8, -1), "axis": st.integers(0, 5)})),
         # element type of the point array: values are then integers spread over the range of that type
         "ptype": st.sampled_from([None, None, None, None, "int8", "int16", "uint8", "uint16", "int32", "float32"]),
     })
 
 
 def check_case(case):
-    if case.get("kind") in ("hist", "aug", "variant"):
+    if case.get("kind") in ("hist", "aug", "variant", "own"):
         return probes.run(case, PROPERTY_ID)
     return _pt(case, 3 if case["kind"] == "pt3" else 2)
 
@@ -100,6 +101,21 @@ def _pt(case, dim):
         P = np.round(P / m * hi * 0.97)
         if ptype.startswith("u"):
             P = np.abs(P)
+    mic = case.get("micro")
+    if mic and not ptype and not case["int_points"]:
+        # small-scale data (micrometres) whose transformed first point has one coordinate far smaller than the others but
+        # far above rounding: a result coordinate of 1e-15 is as much a number as one of 1e-3
+        s_ = mic["s"]
+        tt = T[:dim, dim]
+        tt = (tt / np.linalg.norm(tt) if np.linalg.norm(tt) > 0 else np.eye(dim)[0]) * s_ * 0.7
+        T = T.copy()
+        T[:dim, dim] = tt
+        Ts[0] = T
+        t = tt
+        y = np.array([0.9, -0.6, 0.8][:dim]) * s_
+        y[mic["axis"] % dim] = mic["delta"] * s_ * (-1.0 if mic["axis"] >= dim else 1.0)
+        P = P / (float(np.max(np.abs(P))) or 1.0) * s_
+        P[:, 0] = R.T @ (y - t)
     N = P.shape[1]
     form = case["form"]
     # 'relative to the data magnitude': no floor at 1, so that micrometre-scale data are judged at their own scale
@@ -212,6 +228,35 @@ def _pt(case, dim):
                     ok2, Ts = c.lib("UDQ.SE3", D.SE3)
                     if ok2:
                         c.eq("UDQ.SE3/value", Ts.A, refs.rt(Rq, t), tol, sc)
+    if dim == 3 and N == 1:
+        # composed unit dual quaternions: (D1 D2) p = D1 (D2 p) = R1 (R2 p + t2) + t1, for both signs of either factor
+        qy = refs.q_of(case["Y"]["rot"])
+        Ry, ty = refs.q2r(qy), Y[:3, 3]
+        scy = max(sc, float(np.max(np.abs(ty))))
+        for s1, s2 in ((1.0, 1.0), (1.0, -1.0), (-1.0, 1.0)):
+            q1, q2 = s1 * q, s2 * qy
+            okd, D1 = c.lib("UnitDualQuaternion", L.UnitDualQuaternion, L.UnitQuaternion([float(x) for x in q1]), L.Quaternion(0.5 * refs.qmul(np.r_[0.0, t], q1)))
+            okd2, D2 = c.lib("UnitDualQuaternion", L.UnitDualQuaternion, L.UnitQuaternion([float(x) for x in q2]), L.Quaternion(0.5 * refs.qmul(np.r_[0.0, ty], q2)))
+            if not (okd and okd2):
+                continue
+            okm, D12 = c.lib("UDQ*UDQ", lambda: D1 * D2)
+            if not okm:
+                continue
+            want12 = Rq @ (Ry @ P + ty[:, None]) + t[:, None]
+            ok2, got = c.lib("(D1*D2)*p", lambda: D12 * arg)
+            if ok2 and c.true("(D1D2)p/notnone", got is not None, "product of unit dual quaternions times a point returned None"):
+                _cmp(c, "(D1D2)p/value", got, want12, tol, scy)
+            ok3, inner = c.lib("D2*p", lambda: D2 * arg)
+            if ok3 and inner is not None:
+                ok4, got2 = c.lib("D1*(D2*p)", lambda: D1 * np.asarray(inner, dtype=float).ravel())
+                if ok4 and got2 is not None:
+                    _cmp(c, "D1(D2p)/value", got2, want12, tol, scy)
+            ok5, T12 = c.lib("(D1*D2).SE3", lambda: D12.SE3())
+            if ok5:
+                A12 = np.asarray(T12.A, dtype=float)
+                if c.true("(D1D2).SE3/shape", A12.shape == (4, 4), "shape %s" % (A12.shape,)):
+                    c.eq("(D1D2).SE3/rotation", A12[:3, :3], Rq @ Ry, tol, 1.0)
+                    c.eq("(D1D2).SE3/translation", A12[:3, 3], Rq @ ty + t, tol, max(scy, 1e-300))
     if dim == 3:
         # conversion routes (matrix -> quaternion extraction is only accurate to ~1e-8 next to a half turn: 1e-6 here)
         ok, Uc = c.lib("UnitQuaternion(SO3)", L.UnitQuaternion, X_so)
@@ -256,7 +301,7 @@ def _pt(case, dim):
 
 
 def classify(case):
-    if case.get("kind") in ("hist", "aug", "variant"):
+    if case.get("kind") in ("hist", "aug", "variant", "own"):
         return probes.classify(case)
     dim = 3 if case["kind"] == "pt3" else 2
     N = len(case["pts"])
@@ -265,6 +310,7 @@ def classify(case):
     ratio = (pm / tm if tm > 0 else 1e9) if pm > 0 else 0
     lab = {"kind:" + case["kind"]: True, "N>=2": N >= 2, "N=d": N == dim, "multi_pose": len(case["poses"]) > 1,
            "ratio>1e3": ratio > 1e3 or (0 < ratio < 1e-3), "form:" + (case["form"] if N == 1 else "matrix"): True}
+    lab["micro_scale_tiny_coordinate"] = bool(case.get("micro")) and not case.get("ptype") and not case["int_points"]
     lab["nontrivial"] = bool(N >= 2 or len(case["poses"]) > 1 or lab["ratio>1e3"] or (N == 1 and case["form"] not in ("list",)))
     return lab
 
